@@ -387,3 +387,56 @@ pub async fn exchange_with(sock: &mut Sock, peer: &Peer, origin: u16) -> Result<
     }
     Ok(())
 }
+
+/// Exchange with every peer of `peers` (all live peers of the socket). REQ is
+/// special: its requests rotate over all peers, so whoever receives a request
+/// answers it, until every peer has served at least one round trip.
+pub async fn exchange_all(sock: &mut Sock, peers: &[&Peer], origin: u16) -> Result<(), String> {
+    if sock.ty() != "REQ" {
+        for (k, p) in peers.iter().enumerate() {
+            exchange_with(sock, p, origin + k as u16).await?;
+        }
+        return Ok(());
+    }
+    let mut served = vec![false; peers.len()];
+    let mut log = Vec::new();
+    for k in 0..(2 * peers.len() + 2) as u32 {
+        if served.iter().all(|s| *s) {
+            break;
+        }
+        match sim::complete(sock.send(&rc::tagged(origin, 10 + k, &[5]))).await {
+            Ok(Ok(())) => {}
+            other => {
+                log.push(format!("send: {other:?}"));
+                continue;
+            }
+        }
+        let who = peers
+            .iter()
+            .position(|p| tap_has_tag(&p.out_msgs().unwrap_or_default(), origin, 10 + k, 1));
+        match who {
+            Some(i) => {
+                let mut reply = vec![vec![]];
+                reply.extend(rc::tagged(origin, 100 + k, &[2]));
+                peers[i].send(&reply);
+                match recv_now(sock).await {
+                    Some(Ok(m)) if rc::parse_tag(&m, 0).map(|t| t.seq == 100 + k).unwrap_or(false) => served[i] = true,
+                    other => log.push(format!("recv after peer {i} replied: {other:?}")),
+                }
+            }
+            None => {
+                log.push(format!("request {k} reached none of the live peers"));
+                // whoever got it will not answer: observe that (Err) or give up
+                match recv_now(sock).await {
+                    Some(_) => {}
+                    None => return Err(format!("REQ request went to a connection that is not a live peer and recv waits for it: {log:?}")),
+                }
+            }
+        }
+    }
+    if served.iter().all(|s| *s) {
+        Ok(())
+    } else {
+        Err(format!("REQ could not complete a round trip with every live peer (served {served:?}): {log:?}"))
+    }
+}
